@@ -105,9 +105,9 @@ def edge_weights(case, obs):
     return w
 
 
-def on_square(p):
+def on_square(p, e=TOL):
     u, v = p
-    return ((u == 0 or u == 1) and 0 <= v <= 1) or ((v == 0 or v == 1) and 0 <= u <= 1)
+    return ((abs(u) <= e or abs(u - 1) <= e) and -e <= v <= 1 + e) or ((abs(v) <= e or abs(v - 1) <= e) and -e <= u <= 1 + e)
 
 
 def side_lines(p, eps=1e-9):
@@ -137,7 +137,12 @@ def convex_cyclic(P):
             if q in seen:
                 return "border vertices number %d and %d of the cycle share the position %s" % (seen[q], i, tuple(P[i]))
             seen[q] = i
-    signs = [orient(Q[i], Q[(i + 1) % n], Q[(i + 2) % n]) for i in range(n)]
+    sc = 1 + max(abs(x) for p in P for x in p)
+
+    def turn(a, b, c):           # collinear up to round-off counts as straight (last-bit differences are free)
+        d = (b[0] - a[0]) * (c[1] - a[1]) - (b[1] - a[1]) * (c[0] - a[0])
+        return 0 if abs(d) <= TOL * sc * sc else orient(frp(a), frp(b), frp(c))
+    signs = [turn(P[i], P[(i + 1) % n], P[(i + 2) % n]) for i in range(n)]
     if not (all(s >= 0 for s in signs) or all(s <= 0 for s in signs)) or not any(signs):
         return "border polygon is not convex (turn signs %s)" % signs
     tot = 0.0
@@ -151,20 +156,36 @@ def convex_cyclic(P):
     return None
 
 
+def exotic_form(case):
+    """argument / state forms the property text does not speak about (the documented ones - keyword, positional, omitted,
+    explicit default None - must be answered): flags that are not python bools, numpy integer face indices, a float32
+    custom array, a pre-existing attribute named like the output"""
+    c = case.get("call") or {}
+    return (c.get("flags", "bool") != "bool" or c.get("idx", "int") != "int"
+            or (case["mode"] == "custom" and c.get("cb_dtype", "f64") != "f64") or case.get("_pre") == "uv_garbage")
+
+
+def close(a, b, tol=TOL):
+    return abs(a - b) <= tol * (1 + abs(b))
+
+
 def oracle(case, obs):
     out = []
     nv, faces = len(case["verts"]), case["faces"]
     chi = G.euler(nv, faces)
     st = obs.get("status", "error:none")
     if st.startswith("error"):
-        return [("error", "the embedding neither returned nor rejected: " + st)]
-    # ---- gate
+        return [("error", "the driver could not observe the embedding: " + st)]
+    # ---- gate: whether a refusal is legitimate is decided from the INPUT (V-E+F); any exception class / message counts
     if chi != 1:
         if st != "rejected":
             out.append(("gate", "V-E+F = %d but the surface was not rejected (status %s)" % (chi, st)))
         return out
     if st == "rejected":
-        return [("gate", "V-E+F = 1 but the surface was rejected")]
+        if exotic_form(case):
+            obs["_refused_unnamed_form"] = True      # argument forms the property does not name may be refused
+            return []
+        return [("gate", "V-E+F = 1 (a disk) but the embedding raised %s" % obs.get("exception"))]
     if (obs["nv"], obs["nf"]) != (nv, len(faces)) or obs["nv"] - obs["ne"] + obs["nf"] != chi:
         out.append(("gate", "mouette counts V,E,F = %s,%s,%s; the face list gives chi = %d" % (obs["nv"], obs["ne"], obs["nf"], chi)))
     if not case.get("disk", True):
@@ -176,29 +197,26 @@ def oracle(case, obs):
         for k in range(3):
             v = f[k]
             c = 3 * t + k
-            if c >= len(uvC) or max(abs(uvC[c][0] - uvV[v][0]), abs(uvC[c][1] - uvV[v][1])) > 1e-12 * scale:
+            if c >= len(uvC) or max(abs(uvC[c][0] - uvV[v][0]), abs(uvC[c][1] - uvV[v][1])) > TOL * scale:
                 out.append(("outputs", "corner %d of face %d (vertex %d): per-corner output %s, per-vertex output %s"
                             % (k, t, v, uvC[c] if c < len(uvC) else None, uvV[v])))
                 break
         if out and out[-1][0] == "outputs":
             break
     for v in range(nv):
-        if obs["flat_vertex"][v] != [uvV[v][0], uvV[v][1], 0.0]:
+        fv = obs["flat_vertex"][v]
+        if max(abs(fv[0] - uvV[v][0]), abs(fv[1] - uvV[v][1])) > TOL * scale or abs(fv[2]) > TOL:
             out.append(("outputs", "flat_mesh vertex %d is %s, uv is %s" % (v, obs["flat_vertex"][v], uvV[v])))
             break
         fc = obs["flat_corner"][v]
-        if max(abs(fc[0] - uvV[v][0]), abs(fc[1] - uvV[v][1])) > 1e-12 * scale or fc[2] != 0.0:
+        if max(abs(fc[0] - uvV[v][0]), abs(fc[1] - uvV[v][1])) > TOL * scale or abs(fc[2]) > TOL:
             out.append(("outputs", "flat_mesh (corner storage) vertex %d is %s, uv is %s" % (v, fc, uvV[v])))
             break
-    # ---- the embedding (incl. reading flat_mesh) leaves the input mesh's vertices where they were
+    # (side effects on the input mesh / on the caller's array are not constrained by the text: recorded, not judged;
+    #  their consequences - a later embedding of the same mesh going wrong - are judged in the sequence cases)
     va = obs.get("verts_after")
-    if va is not None:
-        for v in range(nv):
-            if [float(x) for x in case["verts"][v]] != [float(x) for x in va[v]]:
-                out.append(("input-mutated", "input mesh vertex %d moved from %s to %s during the embedding / flat_mesh" % (v, case["verts"][v], va[v])))
-                break
-    if obs.get("custom_after") is not None and obs.get("custom_after") != obs.get("custom_rows"):
-        out.append(("input-mutated", "the caller's custom_boundary array was modified by the embedding"))
+    if va is not None and any([float(x) for x in case["verts"][v]] != [float(x) for x in va[v]] for v in range(nv)):
+        obs["_input_changed"] = True
     # ---- border placement, on my own border walk
     cyc = G.border_cycle(faces)[0]
     P = [uvV[v] for v in cyc]
@@ -208,7 +226,7 @@ def oracle(case, obs):
         out.append(("border/" + case["mode"], "border length %d, mode %s: %s" % (n, case["mode"], msg)))
     if case["mode"] == "circle":
         for v, p in zip(cyc, P):
-            if abs(p[0] * p[0] + p[1] * p[1] - 1) > 1e-12:
+            if abs(p[0] * p[0] + p[1] * p[1] - 1) > TOL:
                 out.append(("border/circle", "border vertex %d at %s is not on the unit circle" % (v, p)))
                 break
     elif case["mode"] == "square":
@@ -218,13 +236,14 @@ def oracle(case, obs):
                 break
         if n >= 4:
             for cnr in ((0.0, 0.0), (1.0, 0.0), (1.0, 1.0), (0.0, 1.0)):
-                if list(cnr) not in [list(p) for p in P]:
+                if not any(abs(p[0] - cnr[0]) <= TOL and abs(p[1] - cnr[1]) <= TOL for p in P):
                     out.append(("border/square", "no border vertex sits on the corner %s (border length %d)" % (cnr, n)))
                     break
     else:
         where = {v: k for k, v in enumerate(case["cycle"])}
         for v in cyc:
-            if list(uvV[v]) != [float(x) for x in case["poly"][where[v]]]:
+            want = [float(x) for x in case["poly"][where[v]]]
+            if not (close(uvV[v][0], want[0]) and close(uvV[v][1], want[1])):
                 out.append(("border/custom", "border vertex %d got %s, the polygon vertex meant for it is %s" % (v, uvV[v], case["poly"][where[v]])))
                 break
     # ---- harmonic: every interior vertex at the weighted average of its neighbours
